@@ -1,7 +1,525 @@
+/-
+Driver for C06. Case kinds (written by harness/c06):
+
+* `seq`  – a sequence of `reg` / `stop` / `req` steps against one Adaptation; per request the
+           handler invocation log and the caller's result.
+* `conc` – concurrent callers; the merged stamp history and every caller's results.
+
+`agree`: the observation is accepted by the model (`Nri.Dispatch`): the plugin list is some
+index-sorted arrangement (equal indices may stand in any order, but the order stays fixed
+between two activations), each request is one `Dispatch.request` on that list, concurrent
+requests are atomic in the order of their stamps.
+`spec`: the property predicates evaluated on the observation itself, without the model.
+-/
 import Driver.Common
-open Lean Drv
+import NriModel.Dispatch
+open Lean Drv Nri Nri.Events Nri.Dispatch
+
 namespace Drv.C06
-/-- placeholder until the property's driver is written -/
-def judge (_ : Json) : Except String Verdict := .error "C06 driver not implemented"
+
+/-! ### decoding -/
+
+structure PSpec where
+  id : Nat
+  idx : String
+  name : String
+  mask : Nat
+  veto : Nat
+  clash : Nat
+  raw : Bool
+  deriving Inhabited
+
+def decSpec (id : Nat) (j : Json) : Except String PSpec := do
+  pure { id := id, idx := ← getStr j "idx", name := ← getStr j "name", mask := ← getNat j "mask",
+         veto := getNatD j "veto", clash := getNatD j "clash", raw := getBoolD j "raw" }
+
+structure Inv where
+  p : String
+  r : String
+  e : Nat
+
+def decInv (j : Json) : Except String Inv := do
+  pure { p := ← getStr j "p", r := ← getStr j "r", e := ← getNat j "e" }
+
+structure Res where
+  err : String
+  errtext : String
+  vetoBy : String
+  vetoReq : String
+  items : List String
+  isNil : Bool
+  t0 : Nat
+  t1 : Nat
+  deriving Inhabited
+
+def decRes (j : Json) : Except String Res := do
+  pure { err := ← getStr j "err", errtext := getStrD j "errtext", vetoBy := getStrD j "vetoby",
+         vetoReq := getStrD j "vetoreq", items := ← getStrList j "items", isNil := getBoolD j "nil",
+         t0 := getNatD j "t0", t1 := getNatD j "t1" }
+
+/-! ### what the harness plugins answer (package rt) -/
+
+def bitOf (m ev : Nat) : Bool := ev ≥ 1 && (m >>> (ev - 1)) % 2 == 1
+
+def memFor (name req : String) : Nat :=
+  let h := (name ++ "|" ++ req).toList.foldl (fun h c => (h * 1099511 + c.toNat) % 1000000007) 1469598103
+  2^28 + h % 2^27
+
+abbrev Items := List (String × String)
+
+def evCreate := 4
+def evUpdate := 8
+def evStop := 10
+def hasReply (ev : Nat) : Bool := ev == evCreate || ev == evUpdate || ev == evStop || ev == 12
+
+def contrib (p : PSpec) (ev : Nat) (rid : String) : Items :=
+  if ev == evCreate then
+    [(p.name, rid)] ++ (if bitOf p.clash ev then [("shared", p.name)] else [])
+  else if ev == evUpdate || ev == evStop then
+    [(rid ++ "/" ++ p.name, toString (memFor p.name rid))] ++
+      (if bitOf p.clash ev then [(rid ++ "/shared", toString (memFor p.name rid))] else [])
+  else []
+
+def insSorted (x : String) : List String → List String
+  | [] => [x]
+  | y :: ys => if x < y then x :: y :: ys else y :: insSorted x ys
+def sortStrs (l : List String) : List String := l.foldr insSorted []
+
+def showItems (it : Items) : List String := sortStrs (it.map fun (k, v) => k ++ "=" ++ v)
+
+/-- the slice of result.go these plugins exercise: a key may be set by one plugin only -/
+def merger : Merger Items Items (List String) Unit where
+  init := []
+  apply acc _ rsp := if rsp.any (fun kv => acc.any (·.1 == kv.1)) then .error () else .ok (acc ++ rsp)
+  finish := showItems
+
+def mkPlugin (s : PSpec) : Plugin :=
+  { id := s.id, idx := S s.idx, name := S s.name, events := effective (BitVec.ofNat 32 s.mask), closed := false }
+
+def specOf (specs : List PSpec) (id : Nat) : PSpec :=
+  match specs.find? (·.id == id) with
+  | some s => s
+  | none => default
+
+def callFor (specs : List PSpec) (ev : Nat) (rid : String) (p : Plugin) : Call Items :=
+  let s := specOf specs p.id
+  { out := if bitOf s.veto ev then .handlerErr (S s.name) else .ok (contrib s ev rid),
+    reached := true, cost := 0 }
+
+/-! ### the tie order: any arrangement inside an equal-index group -/
+
+def idxOfName (l : List String) (n : String) : Option Nat :=
+  let rec go : List String → Nat → Option Nat
+    | [], _ => none
+    | x :: xs, i => if x == n then some i else go xs (i + 1)
+  go l 0
+
+/-- insert by (idx, rank), stable -/
+def insRank (x : Plugin × Nat) : List (Plugin × Nat) → List (Plugin × Nat)
+  | [] => [x]
+  | y :: ys =>
+    if strLt x.1.idx y.1.idx || (!strLt y.1.idx x.1.idx && x.2 < y.2) then x :: y :: ys
+    else y :: insRank x ys
+
+/-- the arrangement of `ps` in which the plugins named in `log` stand in the order of `log`
+    inside their index group and before the group's other members -/
+def arrange (ps : List Plugin) (log : List String) : List Plugin :=
+  let ranked := ps.zipIdx.map fun (p, i) =>
+    (p, match idxOfName log (U p.name) with | some k => k | none => log.length + i)
+  (ranked.foldr insRank []).map (·.1)
+
+/-- ordered pairs of same-index plugin ids a log reveals -/
+def revealedPairs (ps : List Plugin) (log : List String) : List (Nat × Nat) :=
+  let inLog := log.filterMap fun n => ps.find? (fun p => U p.name == n)
+  let rec go : List Plugin → List (Nat × Nat)
+    | [] => []
+    | p :: rest => (rest.filter (fun q => q.idx == p.idx)).map (fun q => (p.id, q.id)) ++ go rest
+  go inLog
+
+/-! ### one request against the model -/
+
+structure Expect where
+  handled : List String
+  err : String
+  vetoBy : String
+  items : List String
+  isNil : Bool
+  after : List Plugin
+
+def runModel (specs : List PSpec) (ps : List Plugin) (ev : Nat) (rid : String) (dying : List String := []) : Expect :=
+  let pcs := ps.map fun p =>
+    if dying.contains (U p.name) then (p, ({ out := .fatal .closed, reached := true, cost := 0 } : Call Items))
+    else (p, callFor specs ev rid p)
+  let (res, tr, after) := request merger 1 ev pcs
+  let handled := tr.handled.map (U ·.name)
+  match res with
+  | .ok items => { handled, err := "", vetoBy := "", items, isNil := !hasReply ev, after }
+  | .error (.veto p _) => { handled, err := "veto", vetoBy := U p.name, items := [], isNil := true, after }
+  | .error (.merge _ _) => { handled, err := "conflict", vetoBy := "", items := [], isNil := true, after }
+
+def cmpExpect (e : Expect) (log : List String) (r : Res) : Option String :=
+  if e.handled != log then some s!"invocations: model {e.handled} impl {log}"
+  else if e.err != r.err then some s!"error: model '{e.err}' impl '{r.err}' ({r.errtext})"
+  else if e.err == "veto" && e.vetoBy != r.vetoBy then some s!"veto by: model {e.vetoBy} impl {r.vetoBy}"
+  else if e.items != r.items then some s!"reply: model {e.items} impl {r.items}"
+  else if e.isNil != r.isNil then some s!"reply nil: model {e.isNil} impl {r.isNil}"
+  else none
+
+/-! ### the property, on the observation itself -/
+
+def subscribedN (mask ev : Nat) : Bool := mask == 0 || bitOf mask ev
+
+def idxNum (s : String) : Nat := idxNat (S s)
+
+def nondecreasing : List Nat → Bool
+  | a :: b :: rest => a ≤ b && nondecreasing (b :: rest)
+  | _ => true
+
+def dupFree : List String → Bool
+  | [] => true
+  | x :: xs => !xs.contains x && dupFree xs
+
+/-- Checks one request's invocation list and result against the property. `active` are the
+    plugins that were registered and not disconnected when the request was made; `must` those
+    of them that certainly were (for late registrations: known active). Returns a failure
+    signature and text. -/
+def specRequest (active must : List PSpec) (ev : Nat) (rid : String) (log : List Inv) (r : Res)
+    (optional : List String := []) : Option (String × String) :=
+  let names := log.map (·.p)
+  let find (n : String) := active.find? (·.name == n)
+  let bad (sig why : String) : Option (String × String) := some (sig, s!"request {rid} (event {ev}): {why}")
+  if log.any (fun i => i.r != rid) then bad "foreign-request" s!"a handler was shown another request: {log.map (·.r)}"
+  else if log.any (fun i => i.e != ev) then bad "wrong-event" s!"handlers saw events {log.map (·.e)}"
+  else if !dupFree names then bad "invoked-twice" s!"a plugin was invoked more than once: {names}"
+  else if names.any (fun n => (find n).isNone) then bad "unknown-plugin" s!"invocations {names}"
+  else
+  let logged := names.filterMap find
+  if logged.any (fun p => !subscribedN p.mask ev) then
+    bad "unsubscribed-invoked" s!"plugins not subscribed to the event were invoked: {(logged.filter (fun p => !subscribedN p.mask ev)).map (·.name)} (masks {(logged.filter (fun p => !subscribedN p.mask ev)).map (·.mask)})"
+  else if !nondecreasing (logged.map (idxNum ·.idx)) then
+    bad "index-order" s!"invoked in index order {logged.map (·.idx)}"
+  else
+  let vetoers := logged.filter (fun p => bitOf p.veto ev)
+  let missingBelow (bound : Nat) := must.filter fun p =>
+    subscribedN p.mask ev && idxNum p.idx < bound && !names.contains p.name
+  if r.err == "" then
+    let missing := must.filter fun p => subscribedN p.mask ev && !names.contains p.name
+    if !missing.isEmpty then bad "missed" s!"subscribed plugins {missing.map (·.name)} were not invoked; invoked {names}"
+    else if !vetoers.isEmpty then bad "veto-ignored" s!"{vetoers.map (·.name)} returned an error but the request succeeded"
+    else
+      -- a plugin that disconnects while its handler runs is invoked but contributes nothing
+      let counted := logged.filter fun p => !optional.contains p.name ||
+        (contrib p ev rid).all fun (k, v) => r.items.contains (k ++ "=" ++ v)
+      let want := showItems (counted.flatMap fun p => contrib p ev rid)
+      if hasReply ev && r.isNil then bad "no-reply" "success without a reply"
+      else if want != r.items then bad "foreign-result" s!"reply {r.items}, the responses to this request give {want}"
+      else none
+  else if r.err == "veto" then
+    match logged.getLast? with
+    | none => bad "veto-from-nowhere" s!"failed with '{r.errtext}' but nobody was invoked"
+    | some last =>
+      if r.vetoReq != rid then bad "foreign-error" s!"error of another request: {r.errtext}"
+      else if r.vetoBy != last.name then bad "continued-after-veto" s!"error by {r.vetoBy}, but invocations went on: {names}"
+      else if vetoers.length != 1 then bad "veto-ignored" s!"vetoing plugins among the invoked: {vetoers.map (·.name)}"
+      else if !(missingBelow (idxNum last.idx)).isEmpty then
+        bad "missed" s!"subscribed plugins {(missingBelow (idxNum last.idx)).map (·.name)} before the veto were not invoked"
+      else if !r.isNil || !r.items.isEmpty then bad "partial-result" s!"a failed request returned {r.items}"
+      else none
+  else if r.err == "conflict" then
+    match logged.getLast? with
+    | none => bad "conflict-from-nowhere" "conflict but nobody was invoked"
+    | some last =>
+      if (logged.filter (fun p => bitOf p.clash ev)).length < 2 || !bitOf last.clash ev then
+        bad "spurious-conflict" s!"conflict reported, invoked {names}"
+      else if !(missingBelow (idxNum last.idx)).isEmpty then bad "missed" "subscribed plugins before the conflict were not invoked"
+      else if !r.isNil || !r.items.isEmpty then bad "partial-result" s!"a failed request returned {r.items}"
+      else none
+  else bad ("error-" ++ r.err) s!"unexpected failure: {r.errtext}"
+
+/-! ### sequential cases -/
+
+structure SeqSt where
+  specs : List PSpec := []          -- every plugin ever registered
+  plugins : List Plugin := []       -- model state
+  active : List Nat := []           -- ids registered and not stopped (for the direct check)
+  revealed : List (Nat × Nat) := [] -- tie orders seen since the last activation
+  agree : Option String := none
+  spec : Option (String × String) := none
+  cover : List String := []
+  nontriv : Bool := false
+  reqs : Nat := 0
+
+def lenClass (n : Nat) : String :=
+  if n == 0 then "0" else if n == 1 then "1" else if n ≤ 3 then "2-3" else if n ≤ 8 then "4-8" else "9+"
+
+def judgeSeq (inp obs : Json) : Except String Verdict := do
+  let ops ← getArr inp "ops"
+  let oops ← getArr obs "ops"
+  let stream := getStrD inp "stream"
+  let fail := getStrD obs "fail"
+  if fail == "crashed" || fail == "blocked" then
+    return { agree := false, spec := false, sig := "C06:" ++ fail,
+             why := s!"the runtime process {fail}: {getStrD obs "panic"}", cover := ["stream:" ++ stream, fail] }
+  if fail != "" then
+    return { agree := false, spec := true, why := s!"harness: {fail}", cover := ["stream:" ++ stream, "harness-fail"] }
+  if ops.length != oops.length then throw "ops/obs length mismatch"
+  let mut st : SeqSt := {}
+  for (op, oo) in ops.zip oops do
+    let kind ← getStr op "op"
+    match kind with
+    | "reg" =>
+      let pj ← getObj op "plugin"
+      let s ← decSpec st.specs.length pj
+      if !getBoolD oo "ok" then
+        st := { st with agree := st.agree <|> some s!"registration of {s.idx}-{s.name} failed" }
+      st := { st with specs := st.specs ++ [s], plugins := activate st.plugins (mkPlugin s),
+                      active := st.active ++ [s.id], revealed := [],
+                      cover := (if s.raw then ["plugin:raw"] else ["plugin:stub"]) ++
+                               (if s.mask == 0 then ["mask:empty" ++ (if s.raw then ":literal" else ":via-stub")] else []) ++ st.cover }
+    | "stop" =>
+      let n ← getStr op "name"
+      match st.specs.find? (·.name == n) with
+      | some s =>
+        st := { st with plugins := disconnect st.plugins s.id, active := st.active.filter (· != s.id),
+                        cover := "op:stop" :: st.cover }
+      | none => throw s!"stop of unknown plugin {n}"
+    | "req" =>
+      let ev ← getNat op "ev"
+      let rid ← getStr op "id"
+      let log ← (← getArr oo "log").mapM decInv
+      let res ← decRes (← getObj oo "res")
+      let names := log.map (·.p)
+      -- model: the arrangement revealed by this log must be a legal one and must not contradict
+      -- what earlier requests revealed since the last activation
+      let arr := arrange st.plugins names
+      let legal := arr.isPerm st.plugins && sortedB arr
+      let pairs := revealedPairs arr names
+      let contradiction := pairs.any fun (a, b) => st.revealed.contains (b, a)
+      let e := runModel st.specs arr ev rid
+      let dis := if !legal then some "tie arrangement is not a sorted permutation (driver)" else
+                 if contradiction then some s!"request {rid}: equal-index plugins changed their order without an activation: {names}"
+                 else (cmpExpect e names res).map (s!"request {rid} (event {ev}): " ++ ·)
+      let activeSpecs := st.specs.filter fun s => st.active.contains s.id
+      let sp := specRequest activeSpecs activeSpecs ev rid log res
+      let subs := activeSpecs.filter fun s => subscribedN s.mask ev
+      let tie := pairs.length > 0
+      st := { st with plugins := e.after, revealed := pairs ++ st.revealed,
+                      agree := st.agree <|> dis, spec := st.spec <|> sp, reqs := st.reqs + 1,
+                      nontriv := st.nontriv || (log.length ≥ 2) || (log.length ≥ 1 && subs.length < activeSpecs.length),
+                      cover := [s!"ev:{ev}", "res:" ++ (if res.err == "" then "ok" else res.err),
+                                "invoked:" ++ lenClass log.length] ++ (if tie then ["tie:equal-index-invoked"] else []) ++
+                               (if arr != st.plugins then ["tie:order-differs-from-insertion"] else []) ++ st.cover }
+    | k => throw s!"unknown op {k}"
+  -- exhaustive bookkeeping for the mask stream: which hundred-blocks of masks does this case hold
+  let mut blocks : List String := []
+  if stream == "masks" then
+    let masks := (st.specs.filter (!·.raw)).map (·.mask)
+    let evs := ops.filterMap fun op => if getStrD op "op" == "req" then some (getNatD op "ev") else none
+    let allEv := (List.range 13).all fun e => evs.contains (e + 1)
+    for b in List.range 82 do
+      let lo := b * 100
+      let hi := min (lo + 99) 8191
+      if allEv && (List.range (hi + 1 - lo)).all (fun k => masks.contains (lo + k)) then
+        blocks := s!"masks:{lo}-{hi}" :: blocks
+  let cov := (["kind:seq", "stream:" ++ stream] ++ blocks ++ st.cover).eraseDups
+  pure { agree := st.agree.isNone, spec := st.spec.isNone,
+         why := match st.spec, st.agree with
+           | some (_, w), _ => w
+           | none, some w => w
+           | none, none => "",
+         sig := match st.spec with | some (s, _) => "C06:" ++ s | none => "",
+         cover := cov, nontrivial := st.nontriv,
+         model := Json.mkObj [("requests", st.reqs)] }
+
+/-! ### concurrent cases -/
+
+structure Stamp where
+  seq : Nat
+  plugin : String
+  req : String
+  ev : Nat
+
+def decStamp (j : Json) : Except String Stamp := do
+  pure { seq := ← getNat j "seq", plugin := ← getStr j "plugin", req := ← getStr j "req", ev := ← getNat j "ev" }
+
+structure CReq where
+  caller : Nat
+  k : Nat
+  ev : Nat
+  rid : String
+  res : Res
+  stamps : List Stamp     -- in history order
+  deriving Inhabited
+
+/-- Kahn's algorithm: does the precedence relation (edges a → b) over `n` nodes have a
+    topological order? -/
+def acyclic (n : Nat) (edges : List (Nat × Nat)) : Bool :=
+  let rec go (fuel : Nat) (alive : List Nat) (edges : List (Nat × Nat)) : Bool :=
+    match fuel with
+    | 0 => alive.isEmpty
+    | fuel + 1 =>
+      if alive.isEmpty then true else
+      let free := alive.filter fun v => !edges.any (fun e => e.2 == v)
+      if free.isEmpty then false else
+      go fuel (alive.filter (!free.contains ·)) (edges.filter fun e => !free.contains e.1)
+  go (n + 1) (List.range n) edges
+
+def consecutivePairs : List Nat → List (Nat × Nat)
+  | a :: b :: rest => (a, b) :: consecutivePairs (b :: rest)
+  | _ => []
+
+def judgeConc (inp obs : Json) : Except String Verdict := do
+  let fail := getStrD obs "fail"
+  if fail == "crashed" || fail == "blocked" then
+    return { agree := false, spec := false, sig := "C06:" ++ fail,
+             why := s!"the runtime process {fail}: {getStrD obs "panic"}", cover := ["kind:conc", fail] }
+  if fail != "" then
+    return { agree := false, spec := true, why := s!"harness: {fail}", cover := ["kind:conc", "harness-fail"] }
+  let early ← (← getArr inp "plugins").zipIdx.mapM fun (j, i) => decSpec i j
+  let late ← (← getArr inp "late").zipIdx.mapM fun (j, i) => decSpec (early.length + i) j
+  let specs := early ++ late
+  let hist ← (← getArr obs "hist").mapM decStamp
+  -- A leaving plugin shuts its connection from inside its After-th handler invocation (so that
+  -- reply is lost and nothing reaches it afterwards). `death`: the stamp of that invocation.
+  let leaveAfter : List (String × Nat) := (← getArr inp "leaving").map fun j =>
+    (getStrD j "name", max 1 (getNatD j "after"))
+  let death (name : String) : Option Nat :=
+    match leaveAfter.find? (·.1 == name) with
+    | none => none
+    | some (_, k) => ((hist.filter (·.plugin == name)).drop (k - 1)).head?.map (·.seq)
+  let leaving := early.filter fun s => (death s.name).isSome
+  let staying := early.filter fun s => (death s.name).isNone
+  let leavingNames := leaving.map (·.name)
+  let callersIn ← getArr inp "callers"
+  let callersObs ← getArr obs "results"
+  if callersIn.length != callersObs.length then throw "callers/results length mismatch"
+  -- requests
+  let mut reqs : Array CReq := #[]
+  for ((ci, co), c) in (callersIn.zip callersObs).zipIdx do
+    let qs ← match ci with | Json.arr a => pure a.toList | _ => throw "caller: not an array"
+    let rs ← match co with | Json.arr a => pure a.toList | _ => throw "results: not an array"
+    if qs.length != rs.length then throw "caller requests/results length mismatch"
+    for ((q, r), k) in (qs.zip rs).zipIdx do
+      let rid ← getStr q "id"
+      reqs := reqs.push { caller := c, k := k, ev := ← getNat q "ev", rid := rid, res := ← decRes r,
+                          stamps := hist.filter (·.req == rid) }
+  let reqL := reqs.toList
+  let ridIx (rid : String) : Option Nat := reqL.findIdx? (·.rid == rid)
+  -- ---- the property, directly on the observation
+  let mut sp : Option (String × String) := none
+  -- (0) every stamp belongs to a request of this case
+  if let some s := hist.find? (fun s => (ridIx s.req).isNone) then
+    sp := sp <|> some ("foreign-request", s!"handler of {s.plugin} saw unknown request {s.req}")
+  -- (1) per request: each once, index order, subscribed only, inside the caller's call, own result
+  for q in reqL do
+    let log := q.stamps.map fun s => ({ p := s.plugin, r := s.req, e := s.ev } : Inv)
+    -- plugins that must have been invoked: the early ones, and late ones already seen by a
+    -- request that had returned before this one was called
+    let seenBefore := late.filter fun lp => reqL.any fun q' =>
+      q'.res.t1 < q.res.t0 && q'.stamps.any (·.plugin == lp.name)
+    let stillThere := leaving.filter fun lp => match death lp.name with
+      | some dth => q.res.t1 < dth
+      | none => true
+    sp := sp <|> specRequest specs (staying ++ stillThere ++ seenBefore) q.ev q.rid log q.res leavingNames
+    -- a plugin that disconnected is never invoked again
+    for lp in leaving do
+      if let some dth := death lp.name then
+        if let some st := q.stamps.find? (fun st => st.plugin == lp.name && st.seq > dth) then
+          sp := sp <|> some ("invoked-after-disconnect", s!"request {q.rid}: plugin {lp.name} closed its connection at tick {dth} and was invoked again at tick {st.seq}")
+    if let some s := q.stamps.find? (fun s => s.seq < q.res.t0 || s.seq > q.res.t1) then
+      sp := sp <|> some ("outside-call", s!"request {q.rid}: handler of {s.plugin} ran outside the caller's call")
+  -- (2) one common order: the union of the plugins' own orders is acyclic
+  let mut edges : List (Nat × Nat) := []
+  for p in specs do
+    let seen := (hist.filter (·.plugin == p.name)).filterMap (ridIx ·.req)
+    edges := consecutivePairs seen ++ edges
+  if !acyclic reqL.length edges then
+    sp := sp <|> some ("no-common-order", "two plugins saw two requests in opposite orders")
+  -- ---- the lock model: relays are atomic, in stamp order; replay them on the model
+  let mut dis : Option String := none
+  -- contiguity
+  let reqSeq := hist.map (·.req)
+  let rec blocks : List String → List String
+    | a :: b :: rest => if a == b then blocks (b :: rest) else a :: blocks (b :: rest)
+    | l => l
+  let bl := blocks reqSeq
+  let interleaved := !dupFree bl
+  if interleaved then
+    dis := some "invocations of different requests interleave: the relay is not atomic"
+  -- Order: requests that reached a handler, at their first stamp. Replaying them on the model
+  -- gives the sequence of plugin lists in force between them. A request that reached nobody
+  -- changes nothing; it is accepted if SOME point inside its caller's bracket (t0, t1) has a
+  -- plugin list on which the model, too, invokes nobody and returns what the caller got.
+  let firstSeq (q : CReq) : Nat := (q.stamps.head?.map (·.seq)).getD 0
+  let insK (x : CReq) (l : List CReq) : List CReq :=
+    let rec go : List CReq → List CReq
+      | [] => [x]
+      | y :: ys => if firstSeq x < firstSeq y then x :: y :: ys else y :: go ys
+    go l
+  let stamped := (reqL.filter (!·.stamps.isEmpty)).foldr insK []
+  let silent := reqL.filter (·.stamps.isEmpty)
+  let (rep, states) : Option String × List (Nat × List Plugin) := Id.run do
+    let mut d : Option String := none
+    let mut plugins : List Plugin := early.foldl (fun ps s => activate ps (mkPlugin s)) []
+    let mut activated : List Nat := early.map (·.id)
+    let mut revealed : List (Nat × Nat) := []
+    let mut states : List (Nat × List Plugin) := [(0, plugins)]   -- (from this tick on, list), latest first
+    for q in stamped do
+      let names := q.stamps.map (·.plugin)
+      -- a late plugin that shows up for the first time was activated before this relay
+      for lp in late do
+        if names.contains lp.name && !activated.contains lp.id then
+          plugins := activate plugins (mkPlugin lp)
+          activated := lp.id :: activated
+          revealed := []
+      let arr := arrange plugins names
+      let pairs := revealedPairs arr names
+      if pairs.any (fun (a, b) => revealed.contains (b, a)) then
+        d := d <|> some s!"request {q.rid}: equal-index plugins changed their order without an activation"
+      -- the leaving plugins whose last invocation this is: invoked, reply lost, dropped
+      let dying := (leaving.filter fun lp => match death lp.name with
+        | some dth => q.stamps.any fun st => st.plugin == lp.name && st.seq == dth
+        | none => false).map (·.name)
+      let e := runModel specs arr q.ev q.rid dying
+      d := d <|> (cmpExpect e names q.res).map (s!"request {q.rid} (event {q.ev}): " ++ ·)
+      plugins := e.after
+      revealed := pairs ++ revealed
+      states := (firstSeq q, plugins) :: states
+    return (d, states.reverse)
+  dis := dis <|> rep
+  -- states: [(0, l0), (s1, l1), …]: list l_i is in force from relay i (first stamp s_i) to relay i+1
+  let rec windows : List (Nat × List Plugin) → List (Nat × Nat × List Plugin)
+    | (a, l) :: (b, l') :: rest => (a, b, l) :: windows ((b, l') :: rest)
+    | [(a, l)] => [(a, 1000000000, l)]
+    | [] => []
+  let wins := windows states
+  for q in silent do
+    let fits' := wins.any fun (a, b, l) =>
+      a < q.res.t1 && q.res.t0 < b && (cmpExpect (runModel specs l q.ev q.rid) [] q.res).isNone
+    if !fits' then
+      dis := dis <|> some s!"request {q.rid} (event {q.ev}) reached nobody and returned '{q.res.err}' {q.res.items}: at no point of its call does the model do the same"
+  let overl := reqL.any fun q => reqL.any fun q' =>
+    q'.caller != q.caller && q'.res.t0 < q.res.t1 && q.res.t0 < q'.res.t1
+  let nInv := hist.length
+  pure { agree := dis.isNone, spec := sp.isNone,
+         why := match sp, dis with
+           | some (_, w), _ => w
+           | none, some w => w
+           | none, none => "",
+         sig := match sp with | some (s, _) => "C06:" ++ s | none => "",
+         cover := ["kind:conc", "trace", s!"callers:{lenClass callersIn.length}", s!"late:{late.length}", s!"leaving:{leaving.length}",
+                   s!"procs:{getNatD inp "procs"}"] ++ (if overl then ["overlapping-calls"] else ["no-overlap"]) ++
+                  (if interleaved then ["interleaved"] else []),
+         nontrivial := overl && nInv > 0,
+         model := Json.mkObj [("requests", reqL.length), ("invocations", nInv)] }
+
+def judge (j : Json) : Except String Verdict := do
+  let inp ← getObj j "in"
+  let obs ← getObj j "obs"
+  match getStrD inp "kind" with
+  | "seq" => judgeSeq inp obs
+  | "conc" => judgeConc inp obs
+  | k => throw s!"unknown case kind {k}"
+
 def main : IO UInt32 := runLines judge
 end Drv.C06
